@@ -7,7 +7,7 @@ From TL Require Import Gen.IgnoreGen Model.Ignore Model.IgnoreSpec.
 From TL Require Import Model.DryBase Model.DryPipe Gen.DryGen Model.Dry.
 From TL Require Import Model.SrpTypes Gen.SrpGen Model.SrpSpec Model.Srp.
 From TL Require Import Gen.EditGen Model.EditRun Actual.SrpActual Actual.EditActual.
-From TL Require Import Proofs.EditList Proofs.EditIgnore Proofs.EditLines Proofs.EditDry Proofs.EditSrp Proofs.EditFacts Proofs.EditMain Proofs.EditFixed.
+From TL Require Import Proofs.EditList Proofs.EditIgnore Proofs.EditLines Proofs.EditDry Proofs.EditSrp Proofs.EditFacts Proofs.EditMain Proofs.EditFixed Proofs.EditDryB.
 
 (* ------------------------------------------------------------------ 1. suppression decisions (Model/Ignore.v) *)
 (* For EVERY quirk vector of the shared suppression parser, every file, every violation line and rule: inserting a
@@ -136,6 +136,59 @@ Theorem C13_dry_report_ws_variant : forall q W k files files', q_strip_in_code q
 Proof. exact EditDry.dry_report_ws_variant. Qed.
 Print Assumptions C13_dry_report_ws_variant.
 
+(* --- stage B (grouping by snippet, overlap removal of blocks, violation building, overlap filter of violations) --- *)
+(* for ANY strictly monotone renumbering F of the lines of each file and every quirk vector: the report of the renumbered
+   rows is the renumbered report, where a violation keeps its first line, its LAST line (line + count - 1), its occurrence
+   count and its references, all moved by F *)
+Theorem C13_dry_report_renumbered : forall F, (forall f a b, a < b <-> F f a < F f b) -> forall q k rows,
+  Forall EditDryB.row_wf rows ->
+  DryPipe.report (model_bparams q) k (map (EditDryB.rshift F) rows) = map (EditDryB.vshift F) (DryPipe.report (model_bparams q) k rows).
+Proof. exact EditDryB.report_shift. Qed.
+Print Assumptions C13_dry_report_renumbered.
+
+(* the whole pipeline: a line that yields no token (blank, comment-only, docstring) inserted before index k of file j of a
+   project - the DRY report of the project is the old report renumbered, for every quirk vector, window size and threshold *)
+Theorem C13_dry_report_insert : forall q W kk k x files j f, nth_error files j = Some f ->
+  EditDry.yields_no_token (model_aparams q (DryPipe.f_lang f)) x = true -> k <= List.length (DryPipe.f_lines f) ->
+  dry_model q W kk (EditDryB.ins_file j k x files)
+  = map (EditDryB.vshift (EditDryB.ins_renumber j k)) (dry_model q W kk files).
+Proof. exact EditDryB.dry_model_insert. Qed.
+Print Assumptions C13_dry_report_insert.
+
+(* what the renumbering does to one violation: everything but the size only moves ... *)
+Theorem C13_dry_rest_moves : forall fi k v,
+  v_file (EditDryB.vshift (EditDryB.ins_renumber fi k) v) = v_file v /\
+  v_line (EditDryB.vshift (EditDryB.ins_renumber fi k) v) = EditDryB.ins_renumber fi k (v_file v) (v_line v) /\
+  v_col (EditDryB.vshift (EditDryB.ins_renumber fi k) v) = v_col v /\
+  v_occ (EditDryB.vshift (EditDryB.ins_renumber fi k) v) = v_occ v /\
+  v_refs (EditDryB.vshift (EditDryB.ins_renumber fi k) v) = map (EditDryB.loc_shift (EditDryB.ins_renumber fi k)) (v_refs v).
+Proof. exact EditDryB.vshift_rest. Qed.
+Print Assumptions C13_dry_rest_moves.
+
+(* ... and the size N of `Duplicate code (N lines` grows by one exactly when the new line falls strictly inside the block
+   (this is the listed finding dry.duplicate-code|insert_*|span-count; it is the only deviation) *)
+Theorem C13_dry_count_stretch : forall fi k v, 1 <= v_count v ->
+  v_count (EditDryB.vshift (EditDryB.ins_renumber fi k) v)
+  = v_count v + (if (v_file v =? fi) && (v_line v <=? k) && (k <? v_line v + v_count v - 1) then 1 else 0).
+Proof. exact EditDryB.vshift_count. Qed.
+Print Assumptions C13_dry_count_stretch.
+
+(* rows computed from files are well formed (first line <= last line), so the hypothesis of the first theorem is met *)
+Theorem C13_dry_rows_wf : forall q W files i, Forall EditDryB.row_wf (rows_from (model_aparams q) W i files).
+Proof. exact EditDryB.rows_from_wf. Qed.
+Print Assumptions C13_dry_rows_wf.
+
+Theorem C13_dry_insert_example :
+  let body := map (EditDry.raw_aline false) ["x = norm(a)"; "y = norm(b)"; "z = join(x, y)"] in
+  let f1 := {| DryPipe.f_lang := DPy; DryPipe.f_lines := EditDry.raw_aline false "def load(a, b):" :: body |} in
+  let f2 := {| DryPipe.f_lang := DPy; DryPipe.f_lines := EditDry.raw_aline false "def save(a, b):" :: body |} in
+  let blank := EditDry.raw_aline false "" in
+  map (fun v => (v_file v, v_line v, v_count v)) (dry_model EditDryB.all_flags_on 3 2 [f1; f2]) = [(0, 2, 3); (1, 2, 3)] /\
+  map (fun v => (v_file v, v_line v, v_count v)) (dry_model EditDryB.all_flags_on 3 2 (EditDryB.ins_file 0 2 blank [f1; f2]))
+  = [(0, 2, 4); (1, 2, 3)].
+Proof. exact EditDryB.dry_model_insert_example. Qed.
+Print Assumptions C13_dry_insert_example.
+
 (* the reported line count end - start + 1 is unchanged by insertions outside the block *)
 Theorem C13_dry_span_outside : forall s e k, (k < s \/ e <= k) ->
   dry_line_count (shift_ins k s) (shift_ins k e) = dry_line_count s e.
@@ -155,16 +208,43 @@ Theorem C13_rs_loc_insert : forall q lines start len k x, rs_line_counts q x = f
 Proof. exact EditSrp.rs_loc_insert. Qed.
 Print Assumptions C13_rs_loc_insert.
 
-Theorem C13_blank_and_comment_not_counted : forall q t,
-  py_line_counts q {| l_kind := LBlank; l_text := "" |} = false /\
-  py_line_counts q {| l_kind := LComment; l_text := ("#" ++ t)%string |} = false /\
-  rs_line_counts q {| l_kind := LBlank; l_text := "" |} = false /\
-  rs_line_counts q {| l_kind := LComment; l_text := ("//" ++ t)%string |} = false.
+(* on the raw text of the line, as the code sees it: a white-space-only line and a line `white space, marker, anything` *)
+Theorem C13_blank_and_comment_not_counted : forall q k w t, EditSrp.ws_all w = true ->
+  py_line_counts q {| l_kind := LBlank; l_raw := w |} = false /\
+  py_line_counts q {| l_kind := LComment; l_raw := (w ++ "#" ++ t)%string |} = false /\
+  rs_line_counts q {| l_kind := k; l_raw := w |} = false /\
+  rs_line_counts q {| l_kind := k; l_raw := (w ++ "//" ++ t)%string |} = false.
 Proof.
-  exact (fun q t => conj (EditSrp.py_blank_not_counted q) (conj (EditSrp.py_comment_not_counted q t)
-                    (conj (EditSrp.rs_blank_not_counted q) (EditSrp.rs_comment_not_counted q t)))).
+  exact (fun q k w t H => conj (EditSrp.py_blank_not_counted q w H) (conj (EditSrp.py_comment_not_counted q w t H)
+                    (conj (EditSrp.rs_blank_not_counted q k w H) (EditSrp.rs_comment_not_counted q k w t H)))).
 Qed.
 Print Assumptions C13_blank_and_comment_not_counted.
+
+(* str.strip() of the line is all the metric looks at: trailing white space (a CR included) and the indentation do not matter *)
+Theorem C13_strip_trailing_ws : forall s w, EditSrp.ws_all w = true -> SrpTypes.strip (s ++ w) = SrpTypes.strip s.
+Proof. exact EditSrp.strip_trailing_ws. Qed.
+Print Assumptions C13_strip_trailing_ws.
+
+Theorem C13_strip_leading_ws : forall w s, EditSrp.ws_all w = true -> SrpTypes.strip (w ++ s) = SrpTypes.strip s.
+Proof. exact EditSrp.strip_leading_ws. Qed.
+Print Assumptions C13_strip_leading_ws.
+
+(* hence trailing white space / CRLF / re-indentation of ANY lines of the file leave every class size unchanged, in all three
+   languages and for every quirk vector (this is what the seeded change `count_loc counts white-space-only lines` breaks) *)
+Theorem C13_loc_ws_variant : forall q ls ls' c start len, Forall2 EditSrp.same_text ls ls' ->
+  py_count_loc q ls c = py_count_loc q ls' c /\ ts_count_loc q ls c = ts_count_loc q ls' c /\
+  rs_node_loc q ls start len = rs_node_loc q ls' start len.
+Proof.
+  exact (fun q ls ls' c start len F => conj (EditSrp.py_loc_same_text q ls ls' c F)
+           (conj (EditSrp.ts_loc_same_text q ls ls' c F) (EditSrp.rs_loc_same_text q ls ls' start len F))).
+Qed.
+Print Assumptions C13_loc_ws_variant.
+
+Theorem C13_same_text_variants : forall k s w w' body, EditSrp.ws_all w = true -> EditSrp.ws_all w' = true ->
+  EditSrp.same_text {| l_kind := k; l_raw := s |} {| l_kind := k; l_raw := (s ++ w)%string |} /\
+  EditSrp.same_text {| l_kind := k; l_raw := (w ++ body)%string |} {| l_kind := k; l_raw := (w' ++ body)%string |}.
+Proof. exact (fun k s w w' body H H' => conj (EditSrp.same_text_trailing k s w H) (EditSrp.same_text_indent k w w' body H H')). Qed.
+Print Assumptions C13_same_text_variants.
 
 (* TypeScript / JavaScript: the line-count rule is read from the source (Gen.SrpGen.ts_loc_mode); since fix c90fc92 it filters
    the lines of the class node, so the metric is invariant under every quirk vector, decorators included (the former guard
@@ -175,10 +255,10 @@ Theorem C13_ts_loc_insert : forall q lines c k x, ts_line_counts q "//" x = fals
 Proof. exact EditSrp.ts_loc_insert. Qed.
 Print Assumptions C13_ts_loc_insert.
 
-Theorem C13_ts_blank_and_comment_not_counted : forall q t,
-  ts_line_counts q "//" {| l_kind := LBlank; l_text := "" |} = false /\
-  ts_line_counts q "//" {| l_kind := LComment; l_text := ("//" ++ t)%string |} = false.
-Proof. exact (fun q t => conj (EditSrp.ts_blank_not_counted q) (EditSrp.ts_comment_not_counted q t)). Qed.
+Theorem C13_ts_blank_and_comment_not_counted : forall q k w t, EditSrp.ws_all w = true ->
+  ts_line_counts q "//" {| l_kind := k; l_raw := w |} = false /\
+  ts_line_counts q "//" {| l_kind := k; l_raw := (w ++ "//" ++ t)%string |} = false.
+Proof. exact (fun q k w t H => conj (EditSrp.ts_blank_not_counted q k w H) (EditSrp.ts_comment_not_counted q k w t H)). Qed.
 Print Assumptions C13_ts_blank_and_comment_not_counted.
 
 Theorem C13_py_loc_append : forall q lines extra c, c_line c + c_len c - 1 <= List.length lines ->
@@ -234,9 +314,9 @@ Print Assumptions C13_actual_strips_bom.
 (* regressions: the witnesses of the repaired findings q_ts_loc_raw_span and q_bom_kept now meet the specification under the
    claimed vector *)
 Theorem C13_regression_ts_loc :
-  let lines := [{| l_kind := LCode; l_text := "class A {" |}; {| l_kind := LCode; l_text := "x = 1;" |}; {| l_kind := LCode; l_text := "}" |}] in
+  let lines := [{| l_kind := LCode; l_raw := "class A {" |}; {| l_kind := LCode; l_raw := "  x = 1;" |}; {| l_kind := LCode; l_raw := "}" |}] in
   let c := {| c_name := "A"; c_kind := CPlain; c_line := 1; c_col := 0; c_deco := 0; c_len := 3; c_members := [] |} in
-  ts_count_loc srp_actual (ins 1 {| l_kind := LBlank; l_text := "" |} lines) (EditSrp.shift_cls 1 c)
+  ts_count_loc srp_actual (ins 1 {| l_kind := LBlank; l_raw := "   " |} lines) (EditSrp.shift_cls 1 c)
   = ts_count_loc srp_actual lines c.
 Proof. exact EditSrp.ts_loc_old_witness_invariant. Qed.
 Print Assumptions C13_regression_ts_loc.
